@@ -79,6 +79,8 @@ def file_item(out, item, rep, tmpdir):
             emit(out, iid, "v2_write_pdb", rep, pdb_text, len(df) > 0)
         except Exception as e:  # noqa: BLE001
             emit(out, iid, "v2_error", rep, "raised %s: %s" % (type(e).__name__, e), False)
+    if item.get("lib"):
+        lib_outputs(out, iid, rep, path)
     if item.get("cli") and (rep == 0 or item.get("cli_repeat")):
         for flag, kind in (("-a", "cli_all"), ("-e", "cli_extended"), ("", "cli_default")):
             if flag not in item.get("cli_variants", ["-a", "-e", ""]):
@@ -110,6 +112,55 @@ def file_item(out, item, rep, tmpdir):
                             emit(out, iid, "cli_" + k, rep, f.read(), has_pairs)
                     else:
                         emit(out, iid, "cli_" + k, rep, "<not written>", False)
+
+
+def _outcome(fn):
+    """An output or the refusal: both must be the same everywhere."""
+    try:
+        r = fn()
+    except Exception as e:  # noqa: BLE001
+        return "raised %s: %s" % (type(e).__name__, str(e)[:200])
+    return r if isinstance(r, (str, bytes)) else repr(r)
+
+
+def lib_outputs(out, iid, rep, path):
+    """Library-level outputs beyond the annotator: the second-generation reader's derived tables and writers, the
+    mmCIF item editor and the molecule filter (written mmCIF/PDB text, CSV)."""
+    from rnapolis import molecule_filter, parser_v2, tertiary_v2, transformer
+    from rnapolis.util import handle_input_file
+
+    with handle_input_file(path) as fh:
+        text = fh.read()
+    is_pdb = path.endswith(".pdb")
+    try:
+        df = parser_v2.parse_pdb_atoms(text) if is_pdb else parser_v2.parse_cif_atoms(text)
+    except Exception as e:  # noqa: BLE001
+        emit(out, iid, "v2_error", rep, "raised %s: %s" % (type(e).__name__, e), False)
+        df = None
+    if df is not None:
+        nt = len(df) > 0
+        emit(out, iid, "v2_fit_to_pdb_write_pdb", rep, _outcome(lambda: parser_v2.write_pdb(parser_v2.fit_to_pdb(df))), nt)
+        emit(out, iid, "v2_can_write_pdb", rep, _outcome(lambda: repr(parser_v2.can_write_pdb(df))), nt)
+
+        def torsions():
+            s = tertiary_v2.Structure(df)
+            return s.torsion_angles.to_csv(float_format="%.9g")
+
+        def connected():
+            s = tertiary_v2.Structure(df)
+            return "\n".join(" ".join(str(r) for r in seg) for seg in s.connected_residues)
+
+        emit(out, iid, "v2_torsion_angles_csv", rep, _outcome(torsions), nt)
+        emit(out, iid, "v2_connected_residues", rep, _outcome(connected), nt)
+    if not is_pdb:
+        emit(out, iid, "transformer_copy_from_to", rep,
+             _outcome(lambda: transformer.copy_from_to(text, "atom_site", "label_asym_id", "auth_asym_id")), True)
+        emit(out, iid, "transformer_replace_value", rep,
+             _outcome(lambda: transformer.replace_value(text, "atom_site", "auth_asym_id", "ZYXWVUTSRQPONMLKJIHGFEDCBA")), True)
+        emit(out, iid, "molecule_filter_by_poly_types", rep,
+             _outcome(lambda: molecule_filter.filter_by_poly_types(text, ["polyribonucleotide", "polydeoxyribonucleotide"], ["chem_comp"])), True)
+        emit(out, iid, "molecule_filter_by_chains", rep,
+             _outcome(lambda: molecule_filter.filter_by_chains(text, ["A", "B"], ["chem_comp", "entity"])), True)
 
 
 def bpseq_item(out, item, rep):
@@ -194,6 +245,9 @@ def adapter_gen_item(out, item, rep, tmpdir):
     nts = [r for r in structure3d.residues if r.is_nucleotide and r.auth is not None]
     rnd = random.Random(item["gen_seed"])
     n = len(nts)
+    if n < 4:
+        emit(out, item["id"], "generated_annotation", rep, "<fewer than four nucleotides with author identifiers>", False)
+        return
 
     def uid(r):
         base = "XXXX|1|%s|%s|%d" % (r.auth.chain, r.auth.name, r.auth.number)
